@@ -25,7 +25,7 @@ def cp_cfg(rng: random.Random, tier: str) -> gen.GenCfg:
         base=rng.choice([0, 1000, 10 ** 6]), zero_len_same_start_ok=False,
         bwd_thread=rng.random() < 0.25, bwd_annotation=rng.random() < 0.3,
         max_depth=rng.choice([2, 3, 4]), max_children=rng.choice([2, 3]), pre_ops=rng.choice([0, 1]), post_ops=rng.choice([0, 1]),
-        unlinked_head=rng.choice([0, 0, 1]),
+        unlinked_head=rng.choice([0, 0, 1]), p_nested_annotation=rng.choice([0.0, 0.15, 0.3]),
     )
 
 
@@ -158,16 +158,18 @@ def observe_cp(case: Dict[str, Any], prop: str, whatif: bool = False, breakdown:
         if ok and whatif:
             rr = random.Random(case["iseed"] + 1)
             for trial in range(2):
-                rec = {"ok": False, "edges": [], "p": {"path": [], "pedges": [], "pevents": []}}
+                rec = {"ok": False, "edges": [], "after": [], "p": {"path": [], "pedges": [], "pevents": []}}
                 try:
                     g = copy.deepcopy(cp)
                     for u, v in list(g.edges):
                         if rr.random() < 0.3:
                             w = g.edges[u, v]["weight"]
                             g.edges[u, v]["weight"] = rr.choice([0, w * 2, w + 3, max(0, w - 1), w // 2])
+                    assigned = project_graph(g)["edges"]          # the weights the user assigned, read BEFORE recomputing
                     ok2 = g.critical_path()
                     rec["ok"] = bool(ok2)
-                    rec["edges"] = project_graph(g)["edges"]
+                    rec["edges"] = assigned
+                    rec["after"] = [[e["u"], e["v"], e["gw"]] for e in project_graph(g)["edges"]]
                     rec["p"] = project_path(g)
                 except Exception as ex:
                     rec["err"] = hta.exc_str(ex)
